@@ -141,7 +141,7 @@ var domainG2 = []byte("BLS_SIG_BLS12381G2_XMD:SHA-256_SSWU_RO_NUL_")
 
 func (p *G2Elt) Hash(msg []byte) kyber.Point { return p.Hash2(msg, domainG2) }
 func (p *G2Elt) Hash2(msg, dst []byte) kyber.Point {
-	g1aff, err := bls12381.HashToG2(msg, dst)
+	g1aff, err := bls12381.HashToG2(msg, shortDST(dst))
 	if err != nil {
 		panic(fmt.Errorf("error while hashing: %w", err))
 	}
